@@ -70,6 +70,7 @@ class ParsersWorld:
         self.modes = sorted(dialect_by_name)
         seams.install_parser_seams()
         seams.install_file_seams()       # now, not lazily inside a run: the global-state probe must not see the harness
+        seams.install_syscall_seam(self.lib_prefix)
         import ply
         self.trace_prefixes = (os.path.join(os.path.abspath(tree), "simple_ddl_parser") + os.sep,
                                os.path.dirname(os.path.abspath(ply.__file__)) + os.sep)
@@ -721,8 +722,8 @@ class ParsersWorld:
 
     # ------------------------------------------------------------------ execution: C15
     LABELS = {"O": ("between",),
-              "S": ("between", "after_lex", "after_yacc", "run_entry", "before_stmt", "run_exit", "io_open", "io_rename"),
-              "L": ("between", "after_lex", "after_yacc", "run_entry", "before_stmt", "run_exit", "io_open", "io_rename")}
+              "S": ("between", "after_lex", "after_yacc", "run_entry", "before_stmt", "run_exit", "io_open", "io_rename", "io_sys"),
+              "L": ("between", "after_lex", "after_yacc", "run_entry", "before_stmt", "run_exit", "io_open", "io_rename", "io_sys")}
 
     def exec_c15(self, trace, keep_events=True):
         swarm = trace["swarm"]
@@ -864,6 +865,9 @@ class ParsersWorld:
         st["stats"]["ctor_elsewhere"] = len(prebuilt)
         st["stats"]["doomed_ctor_tasks"] = sum(1 for t_ in trace["tasks"] if t_.get("doomed"))
         seams.HOOKS.point = point
+        # every os-level call made for library code (stat / mkdir / rename / open below os.path, os.makedirs and pathlib)
+        # is a scheduling point: another thread may run between a check and the act that relies on it
+        seams.HOOKS.sys = (lambda name, a: point("io_sys")) if gran != "O" else None
         blocked = None
         deadlock = None
         try:
@@ -878,6 +882,7 @@ class ParsersWorld:
         finally:
             simenv.uninstall()
             seams.HOOKS.point = lambda *a, **k: None
+            seams.HOOKS.sys = None
             os.chdir(self.workroot)
             shutil.rmtree(cwd, ignore_errors=True)
         st["stats"].update(clock_jumps=clk.jumps, clock_reads_by_library=clk.lib_reads, clock_slept_s=int(clk.slept))
